@@ -1447,6 +1447,22 @@ class Engine:
                 st.env[name] = VSeq(old.kind, n - 1, old.at, old.elt)
                 return old.at(n - 1)
             raise Unsupported("list method form")
+        if isinstance(node.func, ast.Attribute) and node.func.attr in ("endswith", "startswith") and len(node.args) == 1 \
+                and not node.keywords:
+            base = self.ev(node.func.value, st)
+            if isinstance(base, VSeq) and base.kind == "str":
+                # str.endswith / startswith(t): CPython semantics -- t is a suffix / prefix (element-wise)
+                t = self.to_seq(self.ev(node.args[0], st))
+                if t.kind != "str":
+                    raise Unsupported("endswith/startswith with a non-string argument")
+                off = base.length - t.length if node.func.attr == "endswith" else z3.IntVal(0)
+                i = self.bound_var()
+                try:
+                    same = z3.ForAll([i], z3.Implies(z3.And(i >= 0, i < t.length),
+                                                     self.as_int(base.at(off + i)) == self.as_int(t.at(i))))
+                finally:
+                    self.unbind()
+                return VBool(z3.And(t.length <= base.length, same))
         if isinstance(node.func, ast.Attribute) and node.func.attr in ("ljust", "rjust") and len(node.args) == 2 \
                 and not node.keywords:
             base = self.ev(node.func.value, st)
